@@ -512,9 +512,11 @@ def gen_matrix_psd(rng, K, rows, den=4, span=6):
     return mm(mT(C), C)
 
 
-def gen_case(rng, focus=None, kmax=6):
-    K = rng.randint(1, kmax)
-    if focus in ('pairwise', 'correlation', 'sandwich') and K < 2:
+def gen_case(rng, focus=None, kmax=6, K=None, names=None):
+    fixedK = K is not None
+    if K is None:
+        K = rng.randint(1, kmax)
+    if focus in ('pairwise', 'correlation', 'sandwich') and K < 2 and not fixedK:
         K = rng.randint(2, kmax)
     kinds = ['negdef'] * 5 + ['singular'] * 2 + ['indefinite'] * 2 + ['zero_row', 'none', 'badscale']
     kind = rng.choice(kinds)
@@ -524,9 +526,11 @@ def gen_case(rng, focus=None, kmax=6):
         kind = 'negdef'
     if K == 1 and kind in ('singular', 'zero_row', 'indefinite'):
         kind = rng.choice(['negdef', 'negdef', 'zero_row'])
-    names = rng.sample(NAMES, K)
-    if rng.random() < 0.5:
-        names = sorted(names)
+    if names is None:
+        names = rng.sample(NAMES, K)
+        if rng.random() < 0.5:
+            names = sorted(names)
+    names = list(names)
     betas = [dy(rng, -4, 4) if rng.random() < 0.9 else Fr(0) for _ in range(K)]
     import numpy as np
     for _attempt in range(50):
@@ -644,6 +648,81 @@ def gen_cases(rng, n, focus=None, kmax=6):
             c['alphas'] = [H(Fr(1, 20)) if False else (0.05).hex(), rng.choice([(0.01).hex(), (0.1).hex(), (0.5).hex()])]
         cases.append(c)
     return cases
+
+
+# ------------------------------------------------------------------ histories of one raw outcome object
+STEP_KINDS = ['H', 'H', 'HB', 'B', 'boot', 'scalars', 'betas', 'all', 'all', 'nothing']
+MODES = ['same_object', 'same_object', 'deepcopy', 'pickle_then_modify', 'pickle_then_modify', 'modify_then_pickle',
+         'raw_pickle']
+RAW_FIELDS = ['kind', 'betas', 'bounds', 'L', 'L0', 'Lnull', 'N', 'nobs', 'H', 'B', 'boot', 'excluded']
+
+
+def gen_history_case(rng, kmax=6, focus=None):
+    """a raw outcome that is reported, then UPDATED (any subset of its raw inputs replaced: Hessian alone, Hessian
+    and BHHH, BHHH alone, bootstrap sample, likelihoods and sample size, estimates, everything, nothing) and
+    reported again, 1 to 3 times, through the entry points of results.py (same object, copy, write_pickle +
+    bioResults(pickle_file=), plain pickle).  Same parameters throughout."""
+    c = gen_case(rng, focus, kmax)
+    c.pop('lr_with', None)
+    K, names = len(c['names']), c['names']
+    prev, hist, modes, whats = c, [], [], []
+    for _ in range(rng.choice([1, 1, 2, 3])):
+        fresh = gen_case(rng, focus, kmax, K=K, names=names)
+        what = rng.choice(STEP_KINDS)
+        nxt = {k: prev[k] for k in prev if k not in ('history', 'modes', 'whats', 'lr_with', 'alphas', 'corpus', 'note')}
+        take = {'H': ['H', 'kind'], 'HB': ['H', 'kind', 'B'], 'B': ['B'], 'boot': ['boot'],
+                'scalars': ['L', 'L0', 'Lnull', 'N', 'nobs', 'excluded'], 'betas': ['betas', 'bounds'],
+                'all': RAW_FIELDS, 'nothing': []}[what]
+        for k in take:
+            nxt[k] = fresh[k]
+        # keep the raw outcome well formed: Hessian and BHHH come together, a bootstrap sample only with them
+        if (nxt['H'] is None) != (nxt['B'] is None):
+            nxt['H'], nxt['B'], nxt['kind'] = fresh['H'], fresh['B'], fresh['kind']
+        if nxt['H'] is None:
+            nxt['boot'] = None
+        if 'betas' in take and nxt.get('boot') is not None and 'boot' not in take:
+            pass    # the bootstrap replications need not be centred on the estimates
+        hist.append(nxt)
+        modes.append(rng.choice(MODES))
+        whats.append(what)
+        prev = nxt
+    c['history'], c['modes'], c['whats'] = hist, modes, whats
+    return c
+
+
+def check_any(c, o, groups=None):
+    """check_case on a plain case; on a history, on every step (each report must follow from the raw inputs
+    the object holds AT THAT STEP)"""
+    if not c.get('history'):
+        return check_case(c, o, groups)
+    c0 = {k: v for k, v in c.items() if k not in ('history', 'modes', 'whats', 'lr_with', 'alphas')}
+    outs = o.get('history_outs') if isinstance(o, dict) else None
+    if outs is None:
+        return check_case(c0, o if isinstance(o, dict) else {'runner': {'exc': 'NoOutput', 'msg': str(o)[:200]}}, groups)
+    steps = [c0] + list(c['history'])
+    ms_all, tot = [], {'compared': 0, 'undecided': 0, 'convention': 0}
+    for k, (ck, ok) in enumerate(zip(steps, outs)):
+        ms, cnt = check_case(ck, ok, groups)
+        h_removed = ck['H'] is None and any(s_['H'] is not None for s_ in steps[:k])
+        b_removed = ck.get('boot') is None and any(s_.get('boot') is not None for s_ in steps[:k])
+        for m in ms:
+            # figures of a matrix the raw outcome NO LONGER holds (they were stored in the raw object by an earlier
+            # report and are never cleared): one witness class of its own
+            if m.expected is None and m.group in ('family', 'pvalue', 'bootcov', 'pairwise'):
+                boot_q = m.quantity.startswith('bootstrap_')
+                if boot_q and b_removed:
+                    m.group, m.quantity = 'stale', f'after-bootstrap-removed[{m.quantity}]'
+                elif (not boot_q) and h_removed:
+                    m.group, m.quantity = 'stale', f'after-hessian-removed[{m.quantity}]'
+            if k > 0:
+                m.note = (m.note + '; ' if m.note else '') + (
+                    f'history step {k} of {len(steps) - 1}: raw inputs updated ({c.get("whats", ["?"] * k)[k - 1]}) '
+                    f'and reported again through {c["modes"][k - 1]}')
+                m.step = k
+        ms_all += ms
+        for kk in tot:
+            tot[kk] += cnt[kk]
+    return ms_all, tot
 
 
 # ------------------------------------------------------------------ the oracle
@@ -887,6 +966,10 @@ def check_case(c, out, groups=None):
     # ---------------------------------------------------------------- correlations and pairwise tests
     sot = out.get('secondOrderTable')
     sot_map = {}
+    if not have_H and on('pairwise'):
+        cnt['compared'] += 1
+        if sot:
+            bad('pairwise', 'secondOrderTable', None, sot[:2], 'no matrix for this family')
     if have_H and fam[''] is not None and fam['robust_'] is not None:
         if sot is None:
             if on('pairwise'):
@@ -1192,7 +1275,15 @@ def run_impl(ctx, cases, only=None):
 
 def witness_of(c):
     w = {k: v for k, v in c.items()}
-    w['readable'] = {
+    if c.get('history'):
+        w['readable_history'] = [{'update': u, 'entry_point': m_, **_readable(h)}
+                                 for u, m_, h in zip(c.get('whats', ['?'] * len(c['history'])), c['modes'], c['history'])]
+    w['readable'] = _readable(c)
+    return w
+
+
+def _readable(c):
+    return {
         'betas': [float.fromhex(b) for b in c['betas']],
         'L': float.fromhex(c['L']), 'L0': None if c['L0'] is None else float.fromhex(c['L0']),
         'Lnull': None if c['Lnull'] is None else float.fromhex(c['Lnull']),
@@ -1200,17 +1291,17 @@ def witness_of(c):
         'bhhh': None if c['B'] is None else [[float.fromhex(v) for v in r] for r in c['B']],
         'bootstrap': None if c.get('boot') is None else [[float.fromhex(v) for v in r] for r in c['boot']],
     }
-    return w
 
 
-HOW = ('build RawResults from the witness (lib/impl/c08_stats.py: build_raw) and bioResults on it; '
+HOW = ('build RawResults from the witness (lib/impl/c08_stats.py: build_raw) and bioResults on it; for a history apply each '
+       'step with apply_raw / next_results of the same file; '
        './check C08 --replay <this file>')
 
 
-def report(ctx, c, ms, limit_per_case=2):
+def report(ctx, c, ms, limit_per_case=3):
     """one violation per (group, quantity class) of a case"""
     seen = set()
-    for m in ms:
+    for m in sorted(ms, key=lambda m_: m_.group == 'stale'):
         qclass = m.quantity.split('[')[0].strip()
         k = (m.group, qclass)
         if k in seen or len(seen) >= limit_per_case:
@@ -1220,6 +1311,9 @@ def report(ctx, c, ms, limit_per_case=2):
         if m.group == 'construct':
             what = (f'bioResults raises {j["observed"].get("exc")} on a valid raw outcome (K = {len(c["names"])}, '
                     f'bootstrap sample: {"yes" if c.get("boot") else "no"}): no statistic is reported at all')
+        elif m.group == 'stale':
+            what = (f'{m.quantity}: a report built from an already processed raw outcome still shows figures of a matrix the '
+                    f'raw outcome no longer holds' + (f' ({m.note})' if m.note else ''))
         else:
             what = (f'{m.quantity}: reported value differs from its defining formula' + (f' ({m.note})' if m.note else ''))
         ctx.violation(f'C08/stats/{m.group}/{qclass}', what, witness_of(c), j['expected'], j['observed'], HOW)
@@ -1244,7 +1338,7 @@ def stream_stats(ctx, n, focus=None, groups=None, name='stats', with_corpus=True
                   nontrivial=c['H'] is not None)
         key = f"K={len(c['names'])}/{c.get('kind', '?')}/boot={'y' if c.get('boot') else 'n'}/null={'y' if c['Lnull'] else 'n'}"
         dist[key] = dist.get(key, 0) + 1
-        ms, cnt = check_case(c, o, groups)
+        ms, cnt = check_any(c, o, groups)
         for k in tot:
             tot[k] += cnt[k]
         if ms:
@@ -1269,6 +1363,43 @@ def stream_stats(ctx, n, focus=None, groups=None, name='stats', with_corpus=True
             ctx.stream_broken(name, f'generator coverage floor not met: no case with {missing}')
     ctx.notes['_c08_last'] = (cases, outs)
     return nviol_cases
+
+
+def stream_history(ctx, n, focus=None, groups=None):
+    """histories of ONE raw-outcome object: reported, updated, reported again (see gen_history_case)"""
+    st = ctx.stream('history', 'a raw outcome is reported, then 1-3 times UPDATED (Hessian / Hessian+BHHH / BHHH / bootstrap / '
+                    'likelihoods and sizes / estimates / everything / nothing replaced, matrices may appear or disappear) '
+                    'and reported again through bioResults(the same object | a deep copy | write_pickle + pickle_file= before or '
+                    'after the update | a plain pickle copy); EVERY report of the history is checked by the oracle of stream '
+                    'stats against the raw inputs held at that step; non-trivial = some step changes a raw input; distinct by '
+                    'the full history')
+    rng = ctx.sub_rng('history' + (':' + focus if focus else ''))
+    cases = [gen_history_case(rng, 6 if ctx.quick else 8, focus) for _ in range(n)]
+    outs = run_impl(ctx, cases)
+    nbad, modes, whats, steps, comps = 0, {}, {}, 0, 0
+    for c, o in zip(cases, outs):
+        st.record({'first': {k: c[k] for k in ('names', 'betas', 'L', 'H', 'B', 'boot')}, 'modes': c['modes'],
+                   'updates': c['whats'], 'history': [{k: h[k] for k in ('betas', 'L', 'L0', 'Lnull', 'N', 'H', 'B', 'boot')}
+                                                      for h in c['history']]},
+                  nontrivial=any(w != 'nothing' for w in c['whats']))
+        for m_, w in zip(c['modes'], c['whats']):
+            modes[m_] = modes.get(m_, 0) + 1
+            whats[w] = whats.get(w, 0) + 1
+        steps += len(c['history'])
+        ms, cnt = check_any(c, o, groups)
+        comps += cnt['compared']
+        if ms:
+            nbad += 1
+            if nbad <= 40:
+                report(ctx, c, ms)
+    st.extra.update({'steps': st.extra.get('steps', 0) + steps, 'comparisons': st.extra.get('comparisons', 0) + comps,
+                     'entry_points': modes, 'updates': whats,
+                     'cases_with_mismatch': st.extra.get('cases_with_mismatch', 0) + nbad})
+    if n >= 60 and not groups:
+        missing = [m_ for m_ in set(MODES) if not modes.get(m_)] + [w for w in set(STEP_KINDS) if not whats.get(w)]
+        if missing:
+            ctx.stream_broken('history', f'generator coverage floor not met: no step with {missing}')
+    return nbad
 
 
 def stream_estimated(ctx):
@@ -1410,6 +1541,7 @@ def failing_input_search(ctx, br):
     note['cases_with_mismatch'] = stream_stats(ctx, ctx.n(400, 4000), focus=focus, groups=groups, name='stats',
                                                with_corpus=False)
     ctx.notes.pop('_c08_last', None)
+    note['history_cases_with_mismatch'] = stream_history(ctx, ctx.n(80, 600), focus=focus, groups=groups)
 
 
 def run(ctx):
@@ -1432,6 +1564,7 @@ def run(ctx):
     cases, outs = ctx.notes.pop('_c08_last')
     if br.ok:
         stream_rows(ctx, cases, outs)
+    stream_history(ctx, ctx.n(120, 1500))
     stream_estimated(ctx)
     if ctx.broken:
         failing_input_search(ctx, br if not br.ok else None)
@@ -1445,7 +1578,7 @@ def replay(ctx, path):
         print('replay: this file names an obligation/stream; re-run ./check C08')
         return 2
     out = run_impl(ctx, [wit])[0]
-    ms, cnt = check_case(wit, out)
+    ms, cnt = check_any(wit, out)
     print(json.dumps({'still_fails': bool(ms), 'mismatches': [m.as_json() for m in ms[:10]],
                       'comparisons': cnt['compared']}, default=str))
     return 1 if ms else 0
